@@ -526,47 +526,50 @@ func TestVerif_C04(t *testing.T) {
 		c04ByName(fam, "stride2-N4096"),
 	}
 	if thorough {
-		ishapes = append(ishapes, c04ByName(fam, "full"), c04ByName(fam, "stride15-N4096"))
+		ishapes = append(ishapes, c04ByName(fam, "stride15-N4096"))
 	}
-	ikeys := []uint64{0, 1, 2}
-	nb := 1
-	for range ikeys {
-		nb *= len(ishapes)
+	importProduct := func(ishapes []*c04Shape, ikeys []uint64) {
+		nb := 1
+		for range ikeys {
+			nb *= len(ishapes)
+		}
+		mkBitmap := func(x, rot int) []c04Cont {
+			var cs []c04Cont
+			for i := len(ikeys) - 1; i >= 0; i-- {
+				if sh := ishapes[x%len(ishapes)]; sh != nil {
+					cs = append([]c04Cont{{key: ikeys[i], sh: sh, enc: (i + rot + x) % 3}}, cs...)
+				}
+				x /= len(ishapes)
+			}
+			return cs
+		}
+		c.Bound(fmt.Sprintf("import_bitmaps_per_side_%dkeys", len(ikeys)), nb)
+		vx.ParallelFor(nb, func(px int) {
+			w := &c04W{c: c}
+			pcs := mkBitmap(px, 0)
+			encs := c04Encodings(w, pcs, 0, false)
+			for tx := 0; tx < nb; tx++ {
+				if c.Expired() {
+					return
+				}
+				tcs := mkBitmap(tx, 1)
+				for _, e := range encs {
+					c04CheckImport(w, tcs, e, false)
+				}
+				if len(pcs) > 0 && len(tcs) > 0 {
+					c.Distinct(fmt.Sprintf("3|%d|%d", px, tx))
+				}
+			}
+			if px%17 == 0 {
+				c.Sample("import: payload " + c04Desc(pcs) + " × all formats × set|clear × every target × {slice,btree} × {fresh,mapped} × rowSize{1,2}")
+			}
+			c.Outcome(fmt.Sprintf("import payload containers=%d", len(pcs)))
+			w.flush()
+		})
 	}
-	mkBitmap := func(x, rot int) []c04Cont {
-		var cs []c04Cont
-		for i := len(ikeys) - 1; i >= 0; i-- {
-			if sh := ishapes[x%len(ishapes)]; sh != nil {
-				cs = append([]c04Cont{{key: ikeys[i], sh: sh, enc: (i + rot + x) % 3}}, cs...)
-			}
-			x /= len(ishapes)
-		}
-		return cs
-	}
-	c.Bound("import_bitmaps_per_side", nb)
-	vx.ParallelFor(nb, func(px int) {
-		w := &c04W{c: c}
-		pcs := mkBitmap(px, 0)
-		encs := c04Encodings(w, pcs, 0, false)
-		for tx := 0; tx < nb; tx++ {
-			if c.Expired() {
-				return
-			}
-			tcs := mkBitmap(tx, 1)
-			for _, e := range encs {
-				c04CheckImport(w, tcs, e, false)
-			}
-			if len(pcs) > 0 && len(tcs) > 0 {
-				c.Distinct(fmt.Sprintf("3|%d|%d", px, tx))
-			}
-		}
-		if px%17 == 0 {
-			c.Sample("import: payload " + c04Desc(pcs) + " × all formats × set|clear × every target × {slice,btree} × {fresh,mapped} × rowSize{1,2}")
-		}
-		c.Outcome(fmt.Sprintf("import payload containers=%d", len(pcs)))
-		w.flush()
-	})
-
+	importProduct(ishapes, []uint64{0, 1, 2})
+	// full containers (expensive): a smaller product over two keys
+	importProduct([]*c04Shape{nil, ishapes[1], c04ByName(fam, "full"), c04ByName(fam, "full-minus-0")}[:c.Pick(3, 4)], []uint64{0, 1})
 	lap("import")
 	// (largest product last, so that a deadline hit under load cuts only this part)
 	// (2) multi-container bitmaps: every assignment of shapes to 1..N containers, every run pattern
